@@ -44,6 +44,8 @@ type Recorder struct {
 	HandedOut  [][]byte // what GetBroadcasts returned, in order
 	HandedAt   []time.Duration
 	ackPayload []byte
+	fillExact  int // that many upcoming GetBroadcasts calls are answered with one message that uses the limit to the last byte
+	fillSerial int
 
 	// MergeVeto, when set, is consulted by NotifyMerge.
 	MergeVeto func(peers []*memberlist.Node) error
@@ -182,9 +184,25 @@ func (r *Recorder) NotifyMsg(b []byte) {
 		<-r.BlockMsg
 	}
 }
+// FillExact makes the next n GetBroadcasts calls return one message of exactly limit-overhead bytes (a delegate that
+// uses what it is offered to the last byte).
+func (r *Recorder) FillExact(n int) { r.mu.Lock(); r.fillExact = n; r.mu.Unlock() }
+
 func (r *Recorder) GetBroadcasts(overhead, limit int) [][]byte {
 	r.mu.Lock()
 	defer r.mu.Unlock()
+	if r.fillExact > 0 && limit-overhead >= 4 {
+		r.fillExact--
+		r.fillSerial++
+		m := make([]byte, limit-overhead)
+		for i := range m {
+			m[i] = byte(r.fillSerial*31 + i*7) // incompressible enough, distinct per message
+		}
+		m[0], m[1], m[2], m[3] = 'F', 'X', byte(r.fillSerial), byte(r.fillSerial>>8)
+		r.HandedOut = append(r.HandedOut, m)
+		r.HandedAt = append(r.HandedAt, time.Since(r.start))
+		return [][]byte{m}
+	}
 	var out [][]byte
 	used := 0
 	rest := r.userQ[:0:0]
